@@ -31,7 +31,7 @@ const shimImport = "github.com/uhppoted/uhppote-core/verifshim/vs"
 var redirect = map[string]map[string]string{
 	"net": {
 		"ListenUDP": "ListenUDP", "Dialer": "Dialer", "UDPConn": "UDPConn", "TCPConn": "TCPConn",
-		"Dial": "Dial", "DialTimeout": "DialTimeout", "DialUDP": "DialUDP", "DialTCP": "DialTCP", "ListenPacket": "ListenPacket",
+		"ListenConfig": "ListenConfig", "Dial": "Dial", "DialTimeout": "DialTimeout", "DialUDP": "DialUDP", "DialTCP": "DialTCP", "ListenPacket": "ListenPacket",
 		// interfaces the simulated sockets satisfy
 		"Conn": "", "PacketConn": "",
 		// pure helpers and types
@@ -66,7 +66,25 @@ var redirect = map[string]map[string]string{
 		"CompareAndSwapInt32": "CompareAndSwapInt32", "CompareAndSwapInt64": "CompareAndSwapInt64", "CompareAndSwapUint32": "CompareAndSwapUint32", "CompareAndSwapUint64": "CompareAndSwapUint64",
 	},
 	"os": {
-		"Signal": "", "Interrupt": "", "ErrDeadlineExceeded": "",
+		"Signal": "", "Interrupt": "", "ErrDeadlineExceeded": "", "Kill": "", "ErrClosed": "", "ErrNotExist": "", "IsTimeout": "", "NewSyscallError": "", "SyscallError": "",
+		"Getenv": "", "LookupEnv": "", "Stderr": "", "Stdout": "", "Args": "", "Hostname": "",
+	},
+	"context": {
+		"Background": "", "TODO": "", "Context": "", "CancelFunc": "", "Canceled": "", "DeadlineExceeded": "", "WithValue": "", "Cause": "",
+		"WithTimeout": "CtxWithTimeout", "WithDeadline": "CtxWithDeadline", "WithCancel": "CtxWithCancel",
+	},
+	"runtime": {
+		"GOOS": "", "GOARCH": "", "Version": "", "NumCPU": "", "KeepAlive": "", "Caller": "", "Callers": "", "FuncForPC": "", "Stack": "", "Error": "",
+		"Gosched": "Gosched", "NumGoroutine": "NumGoroutine",
+	},
+	"math/rand": {
+		"Intn": "RandIntn", "Int": "RandInt", "Int31": "RandInt31", "Int31n": "RandInt31n", "Int63": "RandInt63", "Int63n": "RandInt63n",
+		"Uint32": "RandUint32", "Uint64": "RandUint64", "Float64": "RandFloat64", "Float32": "RandFloat32", "Perm": "RandPerm", "Shuffle": "RandShuffle", "Seed": "RandSeed",
+	},
+	"math/rand/v2": {
+		"IntN": "RandIntn", "Int": "RandInt", "Int32": "RandInt31", "Int32N": "RandInt31n", "Int64": "RandInt63", "Int64N": "RandInt63n",
+		"Uint32": "RandUint32", "Uint64": "RandUint64", "Float64": "RandFloat64", "Float32": "RandFloat32", "Perm": "RandPerm", "Shuffle": "RandShuffle",
+		"UintN": "RandUintn", "Uint32N": "RandUint32n", "Uint64N": "RandUint64n", "N": "RandN",
 	},
 }
 
@@ -661,6 +679,9 @@ func (c *fileCtx) fixImports() {
 			is := s.(*ast.ImportSpec)
 			path, _ := strconv.Unquote(is.Path.Value)
 			name := filepath.Base(path)
+			if len(name) >= 2 && name[0] == 'v' && name[1] >= '0' && name[1] <= '9' {
+				name = filepath.Base(filepath.Dir(path))
+			}
 			if is.Name != nil {
 				name = is.Name.Name
 			}
@@ -838,12 +859,15 @@ func rewritePackage(repo, rel, out string, overlay map[string]string) []string {
 			p, _ := strconv.Unquote(is.Path.Value)
 			if _, ok := redirect[p]; ok {
 				n := filepath.Base(p)
+				if len(n) >= 2 && n[0] == 'v' && n[1] >= '0' && n[1] <= '9' {
+					n = filepath.Base(filepath.Dir(p)) // math/rand/v2 is package rand
+				}
 				if is.Name != nil {
 					n = is.Name.Name
 				}
 				c.pkgNames[n] = p
 			}
-			if p == "context" || p == "os/signal" || p == "runtime" {
+			if p == "os/signal" || p == "crypto/rand" || p == "os/exec" {
 				fatal("unsupported API: package %s imported by %s", p, name)
 			}
 		}
